@@ -262,3 +262,30 @@ func callAtom(atom *Term, suffix string) []*Term {
 	}
 	return nil
 }
+
+// nonZeroOn: the path establishes key != 0 before upto - as a disequality, or through an order
+// fact that excludes equality (x > 0, !(x < 1), 1 <= x ... for unsigned x).
+func (p *Path) nonZeroOn(upto int, key string) bool {
+	if p.HasFact(upto, func(a *Term, pol bool) bool { return !pol && eqAtom(a, key, "0") }) {
+		return true
+	}
+	if rel, n := p.Relation(upto, keyIs(key), keyIs("0")); n > 0 && rel&rEQ == 0 {
+		return true
+	}
+	// order facts against another constant (x >= 1, !(x < 1), 2 <= x ...): linear forms
+	for i := 0; i < upto && i < len(p.Events); i++ {
+		ev := &p.Events[i]
+		if ev.Kind != EvFact || ev.Cond == nil || ev.Cond.Op != "bin" || len(ev.Cond.Args) != 2 {
+			continue
+		}
+		for _, side := range ev.Cond.Args {
+			if strip(side).Key() != key {
+				continue
+			}
+			if rel, n := p.RelationLin(upto, side, &Term{Op: "const", Name: "0", Typ: side.Typ}); n > 0 && rel&rEQ == 0 {
+				return true
+			}
+		}
+	}
+	return false
+}
